@@ -160,7 +160,9 @@ class _FragGen:
                     # within the type)
                     return r.choice([["np", "int8", "-128"], ["np", "int8", "127"],
                                      ["np", "int16", "-32768"], ["np", "int16", "32767"],
-                                     ["np", "int32", "-2147483647"], ["np", "uint8", "255"]])
+                                     ["np", "uint8", "255"]])
+                    # (no int32 extreme: C adds integer literals in 32-bit int, and next to
+                    # -2147483647 any other order of the same sum overflows)
                 return ["np", "int64", repr(r.choice([1, 2, 3, 6, -2]))]
             if r.random() < 0.4:
                 # single / half precision scalars, powers of two only (exact in any precision)
@@ -394,6 +396,37 @@ def _retype_const(r, t):
     return t2
 
 
+def _mult_twin(r, t):
+    """Copy of t in which one sum or product has one of its operands once more (the same
+    operand set, another multiplicity); None if t has no sum/product."""
+    import copy
+    paths = []
+
+    def walk(x, path):
+        if x[0] == "n":
+            if x[1] in ("Sum", "Product") and x[2] and x[2][0][0] == "t" and x[2][0][1]:
+                paths.append(path)
+            for j, c in enumerate(x[2]):
+                walk(c, path + [2, j])
+        elif x[0] == "t":
+            for j, c in enumerate(x[1]):
+                walk(c, path + [1, j])
+    walk(t, [])
+    if not paths:
+        return None
+    t2 = copy.deepcopy(t)
+    node = t2
+    for step in r.choice(paths):
+        node = node[step]
+    kids = node[2][0][1]
+    # (not an integer constant: in the complex programs none may end up next to a complex value)
+    cands = [k for k in kids if k[0] != "i"]
+    if not cands:
+        return None
+    kids.append(copy.deepcopy(r.choice(cands)))
+    return t2
+
+
 def _strip_cse(t):
     if t[0] == "n":
         if t[1] == "CommonSubexpression":
@@ -427,6 +460,12 @@ def generate(seed, tier):
         # unequal twins with an equal hash (-1 <-> -2) -- also as wrapped children
         tw = spec.collide_variant(r, ops[k][2], allowed=[])
         if tw is not None and r.random() < 0.5 and kind != "cplx":
+            ops.append(["def", f"e{len(pool)}", tw])
+            pool.append(f"e{len(pool)}")
+    for k in range(min(2, npool)):
+        # the same operands with another multiplicity (x + x + y next to x + y), wrapped or not
+        tw = _mult_twin(r, ops[k][2])
+        if tw is not None and r.random() < 0.5:
             ops.append(["def", f"e{len(pool)}", tw])
             pool.append(f"e{len(pool)}")
     if kind == "mixed":
